@@ -257,7 +257,7 @@ def run_rc_property(pid, cfg, tier, seed, t0):
                '--out', out, '--fp', fp, '--replay-out', rp]
         for o in base_opts:
             cmd += ['--opt', o]
-        cmd += ['--opt', 'shard=%d' % i, '--opt', 'nshards=%d' % shards, '--opt', 'zseed=%d' % seed]
+        cmd += ['--opt', 'shard=%d' % i, '--opt', 'nshards=%d' % shards, '--opt', 'zseed=%d' % seed, '--opt', 'tmpdir=%s' % rundir]
         with open(lg, 'w') as lf:
             r = subprocess.run(cmd, stdout=lf, stderr=subprocess.STDOUT, env=env)
         return i, r.returncode, out, fp, rp, lg
